@@ -1463,7 +1463,62 @@ fn search_activation(obs: &[&str]) {
     for ob in obs { emit(ob, found.is_some(), explored, found.clone().unwrap_or(Value::Null)); }
 }
 
+// C16 (bridge stdio clause): `Connection::with_bridge("<real varlink> bridge --connect unix:<socket of a real varlink-certification server>")` + GetInfo, in a
+// child process with a 10 s limit: it must answer (and the probing process must not be aborted).
+fn bridge_probe(cmd: &str) -> i32 {
+    use varlink::OrgVarlinkServiceInterface;
+    match varlink::Connection::with_bridge(cmd) {
+        Err(e) => { eprintln!("with_bridge failed: {:?}", e.kind()); 2 }
+        Ok(conn) => {
+            let mut c = varlink::OrgVarlinkServiceClient::new(conn);
+            match c.get_info() { Ok(i) => { println!("OK {}", i.vendor); 0 } Err(e) => { eprintln!("GetInfo through the bridge command failed: {:?}", e.kind()); 3 } }
+        }
+    }
+}
+fn search_bridge_conn(obs: &[&str]) {
+    use std::os::unix::process::CommandExt;
+    let mut found: Option<Value> = None;
+    let mut explored = 0usize;
+    let (cert, cli) = match (std::env::var("VX_CERT_BIN"), std::env::var("VX_CLI_BIN")) {
+        (Ok(a), Ok(b)) if std::path::Path::new(&a).exists() && std::path::Path::new(&b).exists() => (a, b),
+        _ => { for ob in obs { println!("{}", json!({"obligation": ob, "found": false, "explored": 0, "detail": Value::Null, "note": "VX_CERT_BIN / VX_CLI_BIN not built"})); } return; }
+    };
+    let dir = std::env::temp_dir().join(format!("vx-c16b-{}", std::process::id()));
+    let _ = std::fs::create_dir_all(&dir);
+    let sock = dir.join("cert");
+    let mut server = match std::process::Command::new(&cert).arg(format!("--varlink=unix:{}", sock.display())).arg("--timeout").arg("60")
+        .stdin(std::process::Stdio::null()).stdout(std::process::Stdio::null()).stderr(std::process::Stdio::null()).spawn() { Ok(c) => c, Err(_) => return };
+    for _ in 0..200 { if sock.exists() { break; } std::thread::sleep(Duration::from_millis(20)); }
+    let me = std::env::current_exe().unwrap();
+    let bridge_cmd = format!("{} bridge --connect unix:{}", cli, sock.display());
+    explored += 1;
+    let mut cmd = std::process::Command::new(&me);
+    cmd.arg("--bridge-probe").arg(&bridge_cmd).stdin(std::process::Stdio::null()).stdout(std::process::Stdio::piped()).stderr(std::process::Stdio::piped()).process_group(0);
+    if let Ok(mut child) = cmd.spawn() {
+        let pgid = child.id() as i32;
+        let t0 = std::time::Instant::now();
+        let mut status = None;
+        while t0.elapsed() < Duration::from_secs(10) { if let Ok(Some(st)) = child.try_wait() { status = Some(st); break; } std::thread::sleep(Duration::from_millis(20)); }
+        extern "C" { fn kill(pid: i32, sig: i32) -> i32; }
+        unsafe { kill(-pgid, 9); }
+        let out = child.wait_with_output().ok();
+        let (so, se) = out.map(|o| (String::from_utf8_lossy(&o.stdout).to_string(), String::from_utf8_lossy(&o.stderr).to_string())).unwrap_or_default();
+        let what = "Connection::with_bridge(\"<varlink> bridge --connect unix:<certification server>\") + GetInfo";
+        match status {
+            None => { found = Some(json!({"call": what, "observed": "no answer within 10 s (killed)", "stderr": se})); }
+            Some(st) if !st.success() => { found = Some(json!({"call": what, "observed": format!("probe ended with {:?}", st), "stdout": so, "stderr": se.chars().take(600).collect::<String>()})); }
+            _ => {}
+        }
+    }
+    let _ = server.kill(); let _ = server.wait();
+    let _ = std::fs::remove_dir_all(&dir);
+    for ob in obs { emit(ob, found.is_some(), explored, found.clone().unwrap_or(Value::Null)); }
+}
+
 fn main() {
+    if std::env::args().nth(1).as_deref() == Some("--bridge-probe") {
+        std::process::exit(bridge_probe(&std::env::args().nth(2).unwrap_or_default()));
+    }
     if std::env::args().nth(1).as_deref() == Some("--activation-probe") {
         std::process::exit(activation_probe(&std::env::args().nth(2).unwrap_or_default()));
     }
@@ -1506,6 +1561,8 @@ fn main() {
     if !br.is_empty() { search_bridge(&br); }
     let act: Vec<&str> = ["C16.pre-exec-safe", "C16.activation-fd", "C16.activation-env"].iter().cloned().filter(|o| m(o)).collect();
     if !act.is_empty() { search_activation(&act); }
+    let bc: Vec<&str> = ["C16.bridge-fds"].iter().cloned().filter(|o| m(o)).collect();
+    if !bc.is_empty() { search_bridge_conn(&bc); }
     let pd: Vec<&str> = ["C12.line", "C12.no-panic"].iter().cloned().filter(|o| m(o)).collect();
     if !pd.is_empty() { search_parse_diag(&pd); }
     let gen: Vec<&str> = ["C08.dispatch", "C08.method-name", "C08.args", "C08.client", "C08.no-panic"].iter().cloned().filter(|o| m(o)).collect();
